@@ -479,7 +479,13 @@ def check_libs(env, mods, partial):
     for j, part in enumerate(parts[:-1]):
         for i in part:
             d = decls[i]
-            for k in range(j + 1, len(parts)):
+            # half of the names are looked up through the farthest including lib first: a lookup
+            # through a nearer lib caches the name there, which can hide a broken chained search
+            ks = list(range(j + 1, len(parts)))
+            if i % 2:
+                ks.reverse()
+                ctx.event('api: farthest lib queried first')
+            for k in ks:
                 lj, lk, fj, fk = mods[j].lib, mods[k].lib, mods[j].ffi, mods[k].ffi
                 if d['k'] == 'func':
                     if (any(cdefx.prim_of(a, decls) == 'ptr' and mentions_enum(a, decls) for a in d['args'])
